@@ -13,6 +13,7 @@
 #include <sys/time.h>
 #include <ucontext.h>
 extern "C" void __gcov_dump(void) __attribute__((weak));
+extern const char* g_sim_build_name;
 
 extern "C" {
 struct mi_sim_site_s { const char* file; const char* func; int line; int kind; int id; int flags; };
@@ -653,10 +654,15 @@ static void crash_handler(int sig, siginfo_t* si, void* ctx) {
     write_result_and_exit("violation", "crash", b, 0);
   }
   if (sig == SIGABRT && g_abort_is_expected && g_abort_is_expected()) write_result_and_exit("ok", nullptr, nullptr, 0);
+  if (sig == SIGILL && strcmp(g_sim_build_name, "UBS") == 0) {    // the UBS build traps (ud2) where -fsanitize=undefined detects undefined behaviour
+    snprintf(b, sizeof b, "undefined behaviour trapped by -fsanitize=undefined (overflow, shift, misaligned or null access, out-of-bounds index ...)%s%s", g_crash_context ? g_crash_context() : "", pc);
+    write_result_and_exit("violation", "ubsan", b, 0);
+  }
   snprintf(b, sizeof b, "signal %d (%s)%s last message: %.300s", sig, sig == SIGABRT ? "abort" : "fatal", g_crash_context ? g_crash_context() : "", g_last_msg);
   write_result_and_exit("violation", sig == SIGABRT ? "abort" : "crash", b, 0);
 }
 
+const char* g_sim_build_name = "";
 void sim_set_last_message(const char* m) { snprintf(g_last_msg, sizeof g_last_msg, "%s", m); }
 
 void sched_init() {
